@@ -5,3 +5,11 @@ func init() {
 	register("C01", Rule{Name: "E4.P1", Run: runP1}, Rule{Name: "E4.P2P3", Run: runP2P3}, Rule{Name: "E4.P2prod", Run: runP2Producers}, Rule{Name: "E4.P4", Run: runP4}, Rule{Name: "E4.P5", Run: runP5}, Rule{Name: "E1.pairing", Run: runKindPairing})
 	register("C03", Rule{Name: "E2", Run: runE2}, Rule{Name: "E2.cmp", Run: runE2Comparators}, Rule{Name: "E2.nondet", Run: runNondetSources}, Rule{Name: "E3.state", Run: runGlobalState})
 }
+
+func init() {
+	register("C04", Rule{Name: "E3", Run: runE3}, Rule{Name: "E3.state", Run: runGlobalState})
+}
+
+func init() {
+	register("C05", Rule{Name: "E3", Run: runE3}, Rule{Name: "E3.state", Run: runGlobalState}, Rule{Name: "E2.nondet", Run: runNondetSources})
+}
